@@ -69,6 +69,18 @@ Proof.
   rewrite (H wa c fa Hka Hca Hfa), (H wb c fb Hkb Hcb Hfb). reflexivity.
 Qed.
 
+(* seek_to_token on ANY session -- fresh, already finished because its /init response carried the whole stream
+   (large cap on that worker), or read to end-of-stream and rewound: iteration observes exactly the remaining steps. *)
+Theorem C11_seek_resume : forall progs w0 sh pid cid ss w1 fuel rs w2 k b tok,
+  cap (w_cfg w0) = None ->
+  open_sess progs w0 sh pid cid = inr (ss, w1) ->
+  nwt_all progs fuel w1 ss = (rs, w2) ->
+  nth_error rs k = Some (NItem b (Some tok)) ->
+  forall (any : sess) w' c fuel', w_key w' = w_key w0 -> cache_ok cid (callpid_of sh pid) (w_cache w') ->
+    (List.length (steps (progs pid)) < fuel')%nat ->
+    fst (fst (iter_sess progs fuel' c w' (seek any tok))) = obs_prod c (skipn (S k) (steps (progs pid))) None.
+Proof. exact seek_remaining. Qed.
+
 (* A turn's body exceeds the cap by at most the output of its last process() call: for a continuation turn
    (exch) and for the first turn (init; its stream starts with the init logs unless a header stream took them). *)
 Theorem C11_overshoot_le_last : forall progs w ct kt t k w' c pre last,
@@ -116,6 +128,7 @@ Print Assumptions C11_iterate_is_reference.
 Print Assumptions C11_cap_independent_partial.
 Print Assumptions C11_resume.
 Print Assumptions C11_resume_any_cache_same.
+Print Assumptions C11_seek_resume.
 Print Assumptions C11_overshoot_le_last.
 Print Assumptions C11_overshoot_le_last_init.
 Print Assumptions C11_resume_token_roundtrip.
@@ -146,6 +159,15 @@ Example C11_nonvacuous_resume :
     nth_error rs 1 = Some (NItem b (Some tok)) /\ List.length rs = 5%nat /\
     fst (fst (resume_iter ex_progs 9 CbRecord (ex_w (Some 1) 0) tok)) = [ELog (ex_log WARN "s2"); EBatch (ex_b 5 2); EBatch (ex_b 2 3); EDone].
 Proof. do 6 eexists. vm_compute. repeat split; reflexivity. Qed.
+
+(* a fresh session on a worker with a huge cap is FINISHED by its /init response (no token); seeking it still resumes *)
+Example C11_nonvacuous_seek_finished :
+  exists ss w1 rs w2 b tok fs fw,
+    open_sess ex_progs (ex_w None 4) ShCs 7 100 = inr (ss, w1) /\ nwt_all ex_progs 9 w1 ss = (rs, w2) /\
+    nth_error rs 1 = Some (NItem b (Some tok)) /\
+    open_sess ex_progs (ex_w (Some 10000000) 4) ShCs 7 101 = inr (fs, fw) /\ s_fin fs = true /\ s_ct fs = None /\
+    fst (fst (iter_sess ex_progs 9 CbRecord fw (seek fs tok))) = [ELog (ex_log WARN "s2"); EBatch (ex_b 5 2); EBatch (ex_b 2 3); EDone].
+Proof. do 8 eexists. vm_compute. repeat split; reflexivity. Qed.
 
 Example C11_nonvacuous_overshoot :
   exists t k w', exch ex_progs (ex_w (Some 250) 4) (mkct 1 100 None 1) (Some (mkkt 1 100 (Some 7))) =
